@@ -1139,6 +1139,10 @@ where
             let edge_idx = EdgeIndex::new(edge_index);
             match index_twice(&mut self.g.nodes, a.index(), b.index()) {
                 Pair::None => return Err(if a > b { a } else { b }),
+                // an edge must not be attached to a vacant node
+                Pair::One(an) if an.weight.is_none() => return Err(a),
+                Pair::Both(an, _) if an.weight.is_none() => return Err(a),
+                Pair::Both(_, bn) if bn.weight.is_none() => return Err(b),
                 Pair::One(an) => {
                     edge.next = an.next;
                     an.next[0] = edge_idx;
